@@ -260,7 +260,7 @@ fn exec_readonly_agree(ops: &[Op]) -> CaseResult {
 }
 
 pub fn run(c: &Ctx) {
-    c.set_rule("(a) exhaustive on one entry: every start permission value 0..=0o777 (512) x every well-formed single clause of the grammar [dfa]:[ugoa]+[-+=][rwx]+ (945) x {file, dir} on Memfs, link->file / link->dir with 64 start values; a seeded sample (quick 1/40, thorough all 945^2 on 16 start values) of double clauses incl. readonly() and secure(); malformed expressions: every single-character deletion / substitution of a sample of well-formed ones + random strings; the same single clauses on a tmpfs Stdfs sandbox for 16 start values; octal values 0..=0o7777 (special bits included) on file and dir from 4 start modes, on Memfs and on Stdfs. Oracle: reference interpreter of the documented grammar applied clause by clause to entries of the matching kind; type bits preserved; links and (without follow) their targets untouched; malformed first clause => Err and unchanged; is_exec/is_readonly == mode bits. (b) random trees (dirs, files, links incl. dangling, various modes/owners) + one chmod/chmod_b/chown/chown_b with every option combination (all/dirs/files/sym x recurse x follow; uid/gid/owner x recurse x follow): full tree equality with the reference model (exactly the targeted entries changed). (c) two hand-made trees (prefix-named sibling directories linked to each other, links to files, dirs, ancestors and nothing; non-default modes and owners) x every path x every chmod_b / chown_b option combination, same oracle. Non-trivial = expression whose first clause targets the other kind, or a tree with a link, or value 0; distinct by case.");
+    c.set_rule("(a) exhaustive on one entry: every start permission value 0..=0o777 (512) x every well-formed single clause of the grammar [dfa]:[ugoa]+[-+=][rwx]+ (945) x {file, dir} on Memfs, link->file / link->dir with 64 start values; a seeded sample (quick 1/40, thorough all 945^2 on 16 start values) of double clauses incl. readonly() and secure(); malformed expressions: every single-character deletion / substitution of a sample of well-formed ones + random strings; the same single clauses on a tmpfs Stdfs sandbox for 16 start values; octal values 0..=0o7777 (special bits included) on file and dir from 4 start modes, on Memfs and on Stdfs. Oracle: reference interpreter of the documented grammar applied clause by clause to entries of the matching kind; type bits preserved; links and (without follow) their targets untouched; malformed first clause => Err and unchanged; is_exec/is_readonly == mode bits. (b) random trees (dirs, files, links incl. dangling, various modes/owners) + one chmod/chmod_b/chown/chown_b with every option combination (all/dirs/files/sym x recurse x follow; uid/gid/owner x recurse x follow): full tree equality with the reference model (exactly the targeted entries changed). (c) two hand-made trees (prefix-named sibling directories linked to each other, links to files, dirs, ancestors and nothing; non-default modes and owners) x every path x every chmod_b / chown_b option combination, same oracle; the same trees (minus the dangling link) x calls on a tmpfs Stdfs sandbox against the Memfs twin, std::fs as observer (modes and owners of every entry, link targets outside the call's reach above all). Non-trivial = expression whose first clause targets the other kind, or a tree with a link, or value 0; distinct by case.");
     c.assume("symbolic expressions applied through followed links and later-clause malformation only require the failing entry to be unchanged (DESIGN 6.3)");
     let cl = clauses();
     c.note("single_clauses", cl.len());
@@ -508,6 +508,26 @@ pub fn run(c: &Ctx) {
             c.judge("ops", &json!(null), r);
         });
         c.note("directed_tree_option_cases", cases.len());
+        // the same trees (without the dangling link: outside the domain both backends are specified on) and calls on
+        // the real-filesystem backend: std::fs observes the tree, the Memfs twin (held to the model above) is the
+        // reference for which entries a call may touch - a link's target directory outside the call's reach above all
+        let std_cases: Vec<&Vec<Op>> = cases
+            .iter()
+            .filter(|v| !matches!(v.last(), Some(Op::ChmodB(p, _)) | Some(Op::ChownB(p, _)) | Some(Op::Chmod(p, _)) | Some(Op::Chown(p, ..)) if p == "/dang" || p == "/nope" || p == "/"))
+            .collect();
+        par_for(std_cases.len() as u64, 8, |i| {
+            let ops = std_cases[i as usize];
+            let rr = |o: &Op| -> Op { serde_json::from_str(&crate::props::c02::reroot(&serde_json::to_string(o).unwrap())).unwrap() };
+            let setup: Vec<Op> = ops[..ops.len() - 1].iter().filter(|o| !matches!(o, Op::Symlink(l, _) if l == "/dang")).map(rr).collect();
+            let case = crate::props::c02::DiffCase { setup, calls: vec![rr(ops.last().unwrap())] };
+            mark("diff", &serde_json::to_string(&case).unwrap());
+            c.eval(1);
+            c.nontrivial(fp(&format!("std{:?}", ops)));
+            c.class("directed-tree-x-options:stdfs-vs-memfs");
+            let r = crate::props::c02::check_diff(&case).map_err(|f| f.with_case("diff", serde_json::to_value(&case).unwrap()));
+            c.judge("diff", &json!(null), r);
+        });
+        c.note("directed_tree_option_cases_on_stdfs", std_cases.len());
     }
     // (b) trees x options against the reference model
     let n = c.tier.pick(8_000, 200_000);
@@ -551,6 +571,7 @@ pub fn replay(kind: &str, case: &Value) -> Option<CaseResult> {
             let ops: Vec<Op> = serde_json::from_value(case.clone()).ok()?;
             Some(run_ops(&ops, &c01::OPTS).and_then(|_| exec_readonly_agree(&ops)))
         },
+        "diff" => Some(crate::props::c02::check_diff(&serde_json::from_value(case.clone()).ok()?)),
         _ => None,
     };
     crate::sandbox::cleanup();
